@@ -6,7 +6,7 @@ from .. import env, coq, runner, gates
 
 LEVEL = 'translation_validation'
 META = dict(
-    text='Coq theorems: a model of the control flow of kak_canonicalize_vector on exact coefficients (any rational multiple of pi/4, any atol) reaches the canonical Weyl chamber for every input, its trace of shifts/negations/swaps replays to the returned vector and each step keeps the implied two-qubit matrix (generic ring), and the validators (reconstructs, count_2q, kak_canonical) are sound; the minimal CNOT/CZ count is modelled as a function of the canonical coefficients (cz_class: 0 at the origin, 1 at (pi/4,0,0), 2 on the rest of the face z=0, 3 elsewhere) with its tolerance-aware validator proved exact at zero tolerance, witness circuits for one and two CNOTs, and the quantity num_cnots_required looks at (trace of u YY u^T YY) proved to be 4(cos2x cos2y cos2z + i sin2x sin2y sin2z) on exp(i(xXX+yYY+zZZ)) and blind to single-qubit gates; on every run the model is compared with cirq.kak_canonicalize_vector by vm_compute (coefficients, phase and the four single-qubit corrections, exactly), and every routine of a frozen list of decomposition / synthesis routines is run on a special-case corpus (identity, local gates, CNOT/iSWAP/SWAP classes, Weyl-chamber vertices/edges/faces, degenerate eigenvalues, +-1e-10..1e-8 perturbations of each boundary) and on seeded random unitaries x option flags; the returned factors / operations are recomposed inside Coq (float instance of the reference semantics) and must reproduce the input within the documented tolerance, with the promised factor forms and gate counts; num_cnots_required, kak_vector, extract_right_diag and two_qubit_matrix_to_cz_isometry are judged on the same corpus against the coefficients each point was built from or against kak_decomposition coefficients validated in the same Coq expression; a frozen set of structured two-qubit unitaries (diagonal incl. one-qubit phase gates on either qubit, tensor products, permutation and phased permutation matrices, singly controlled gates with either control, block-diagonal multiplexers) plus seeded random members of each class meets every two-qubit routine (theorems: with the first qubit in |0> a diagonal diag(a,b,c,d) acts on the columns |00>, |01> as I (x) diag(a,b), the other half diag(a,c) agrees only when b = c); cirq_google.known_2q_op_to_sycamore_operations is exercised gate by gate (CZ/CNOT/ZZ/SWAP/ISWAP/XX/YY powers at exponents +-1, +-0.5, +-0.25, +-1.5, +-2, +-3, 0, 1e-9, +-1 +- 1e-10 and random ones, PhasedISwap, SWAP+ZZ circuit operations, either qubit order, global shifts, tags) against the gate of the shared vocabulary evaluated inside Coq, and the same operations go as matrices through two_qubit_matrix_to_sycamore_operations (theorems: SWAP**-1 = SWAP, ISWAP**-1 is the inverse of ISWAP and no phase multiple of it); the n-qubit routines are also run with the qubits handed over in non-sorted orders.',
+    text='Coq theorems: a model of the control flow of kak_canonicalize_vector on exact coefficients (any rational multiple of pi/4, any atol) reaches the canonical Weyl chamber for every input, its trace of shifts/negations/swaps replays to the returned vector and each step keeps the implied two-qubit matrix (generic ring), and the validators (reconstructs, count_2q, kak_canonical) are sound; the minimal CNOT/CZ count is modelled as a function of the canonical coefficients (cz_class: 0 at the origin, 1 at (pi/4,0,0), 2 on the rest of the face z=0, 3 elsewhere) with its tolerance-aware validator proved exact at zero tolerance, witness circuits for one and two CNOTs, and the quantity num_cnots_required looks at (trace of u YY u^T YY) proved to be 4(cos2x cos2y cos2z + i sin2x sin2y sin2z) on exp(i(xXX+yYY+zZZ)) and blind to single-qubit gates; on every run the model is compared with cirq.kak_canonicalize_vector by vm_compute (coefficients, phase and the four single-qubit corrections, exactly), and every routine of a frozen list of decomposition / synthesis routines is run on a special-case corpus (identity, local gates, CNOT/iSWAP/SWAP classes, Weyl-chamber vertices/edges/faces, degenerate eigenvalues, +-1e-10..1e-8 perturbations of each boundary) and on seeded random unitaries x option flags; the returned factors / operations are recomposed inside Coq (float instance of the reference semantics) and must reproduce the input within the documented tolerance, with the promised factor forms and gate counts; num_cnots_required, kak_vector, extract_right_diag and two_qubit_matrix_to_cz_isometry are judged on the same corpus against the coefficients each point was built from or against kak_decomposition coefficients validated in the same Coq expression; a frozen set of structured two-qubit unitaries (diagonal incl. one-qubit phase gates on either qubit, tensor products, permutation and phased permutation matrices, singly controlled gates with either control, block-diagonal multiplexers) plus seeded random members of each class meets every two-qubit routine (theorems: with the first qubit in |0> a diagonal diag(a,b,c,d) acts on the columns |00>, |01> as I (x) diag(a,b), the other half diag(a,c) agrees only when b = c); cirq_google.known_2q_op_to_sycamore_operations is exercised gate by gate (CZ/CNOT/ZZ/SWAP/ISWAP/XX/YY powers at exponents +-1, +-0.5, +-0.25, +-1.5, +-2, +-3, 0, 1e-9, +-1 +- 1e-10 and random ones, PhasedISwap, SWAP+ZZ circuit operations, either qubit order, global shifts, tags) against the gate of the shared vocabulary evaluated inside Coq, and the same operations go as matrices through two_qubit_matrix_to_sycamore_operations (theorems: SWAP**-1 = SWAP, ISWAP**-1 is the inverse of ISWAP and no phase multiple of it); the n-qubit routines are also run with the qubits handed over in non-sorted orders; the heuristic tabulation decomposition (two_qubit_gate_product_tabulation / TwoQubitGateTabulation.compile_two_qubit_gate, and the Sycamore gateset built on it) is run on frozen tabulations (SYC, FSim(pi/4,pi/24), sqrt-iSWAP, CZ) and a seeded one, on the gate of every tabulated KAK vector (one, two and three base gates, equal and distinct inner layers) and on the corpus: the returned local layers interleaved with the base gate are recomposed in the reference semantics and must equal the reported actual_gate up to phase and, when success is True, lie within the tabulation infidelity bound of the target (theorems: the returned list (kR, k_1..k_n, kL) multiplies out in the documented order to kL.(A.k_n...A.k_1.A).kR for any number of layers; equal inner layers may be reversed, distinct ones may not; tr(U^dagger gV) = g tr(U^dagger V)).',
     note='Translation validation: the quantifier over unitaries is sampled (corpus + seeded random), the evidence says how. Trusted: Coq kernel; the float instance (binary64 inside vm_compute, no proof about rounding); numpy/scipy/LAPACK inside Cirq; the Python adapters (operation -> Gallina term through the shared gate vocabulary; gates outside it enter through cirq.unitary, counted in the evidence). Where a docstring states no tolerance the routine\'s own atol x 10 is used (listed per routine in ROUTINES).',
     technique='Rocq/Coq proof (lia, ring) of the canonicaliser model and of the validators + vm_compute translation validation of every returned decomposition',
 )
@@ -293,6 +293,20 @@ def boundary_perturbations(name, xyz):
     return out
 
 
+NEAR_FACE = [1e-7, 1e-6, 5e-6]
+
+
+def near_face_points():
+    """Points just below the face x = pi/4 with z != 0, at distances between the routines' atol (1e-8) and numpy's default relative
+    tolerance at pi/4 (1e-5 * pi/4 = 7.9e-6): (pi/4 - d, y, -z), and the same classes written as (pi/4 + d, y, z)."""
+    q, t, s_ = PI4, 0.3, 0.17
+    out = []
+    for name, xyz, sgn in (('edge:cnot-swap-', (q, t, -t), -1), ('face:x=pi/4,z<0', (q, t, -s_), -1), ('edge:cnot-swap', (q, t, t), 1), ('face:x=pi/4', (q, t, s_), 1)):
+        for d in NEAR_FACE:
+            out.append((f'{name}:x{sgn * d:+.0e}', (xyz[0] + sgn * d, xyz[1], xyz[2])))
+    return out
+
+
 def local_pair(rng, kind):
     def one():
         if kind == 'clifford':
@@ -453,6 +467,12 @@ def two_qubit_inputs(ctx, cirq, n_random, full=True):
             g = cmath.exp(1j * r.uniform(0, 2 * math.pi))
             out.append(('weyl+locals:' + name, g * local_pair(r, 'haar') @ core @ local_pair(r, 'haar'), xyz))
     out += structured_inputs()                  # after the Weyl corpus: the per-index routine selection of the older corpus is unchanged
+    for name, xyz in near_face_points():
+        core = interaction_matrix(*xyz)
+        out.append(('weyl:' + name, core, xyz))
+        r = name_rng('weyl+locals:' + name)
+        g = cmath.exp(1j * r.uniform(0, 2 * math.pi))
+        out.append(('weyl+locals:' + name, g * local_pair(r, 'haar') @ core @ local_pair(r, 'haar'), xyz))
     for i in range(n_random):
         r = rng.random()
         if r < 0.5:
@@ -606,12 +626,13 @@ def residual(a, b, phase):
 
 
 def add_ops_checks(ctx, conv, checks, routine, opts, name, u, ops, qubits, tol, phase, count=None, nontrivial=True, extra=None, cmp=None,
-                   uterm=None, alt=None):
+                   uterm=None, alt=None, what_cmp=None):
     """count: (bound, exact: bool, native predicate, text) or None.  Appends the Coq comparisons for one returned op list.
     cmp: (validator name, text) replacing the comparison of the whole unitary (isometries compare the columns that matter).
     uterm: the reference matrix as a Gallina term (a gate of the shared vocabulary evaluated inside Coq) instead of the literal of u.
     alt: (validator name, signature, note): a weaker comparison evaluated only when the documented one fails; if it holds, the failure
-    is reported under that signature (it classifies a failure, it never excuses one)."""
+    is reported under that signature (it classifies a failure, it never excuses one).
+    what_cmp: the sentence saying what differs from what, when u is not the routine's input (a reported matrix)."""
     cirq = conv.cirq
     ops = list(cirq.flatten_to_ops(ops))
     rep = dict(kind='synth', routine=routine, opts=opts, input_class=name, matrix=cmat(u))
@@ -625,13 +646,13 @@ def add_ops_checks(ctx, conv, checks, routine, opts, name, u, ops, qubits, tol, 
         ctx.violation(f'{routine}:form:{cls(name)}', f'{stream} on {name}: {e}', rep)
         return
     n = len(qubits)
-    ctx.count(stream, [name, rep['matrix']], nontrivial, sample=dict(input_class=name, operations=[str(o) for o in ops][:12], n_ops=len(ops)))
+    ctx.count(stream, [name, rep['matrix']], nontrivial, sample=dict(input_class=name, operations=[str(o) for o in ops[:12]], n_ops=len(ops)))
     cmpf = cmp[0] if cmp else 'reconstructs_phase_f' if phase else 'reconstructs_f'
     try:
         res = residual(numpy_unitary(cirq, ops, qubits)[:, :2] if cmp else numpy_unitary(cirq, ops, qubits), u[:, :2] if cmp else u, phase)
     except Exception:
         res = None
-    what = (f'{stream} on {name}: {cmp[1] if cmp else "the product of the returned operations differs from the input"}'
+    what = (f'{stream} on {name}: {cmp[1] if cmp else what_cmp or "the product of the returned operations differs from the input"}'
             f'{" (up to global phase)" if phase else ""} by more than the documented tolerance {tol:g} (numpy estimate of the residual: {res})')
     um = uterm if uterm is not None else gates.fmat(u)
     more = dict(alt=f'{alt[0]} {fl(tol)} {gates.nlist([2] * n)} {term} {um}', alt_signature=alt[1], alt_note=alt[2]) if alt else {}
@@ -905,7 +926,7 @@ def run_class(ctx, cirq, mods, conv, checks, routine, opts, name, u, hint, batch
         checks.append((stream, f'negb {cert_u} || kak_vector_ok_f {fl(atol)} {fl(1e-7)} {fl(v[0])} {fl(v[1])} {fl(v[2])} {fl(cx)} {fl(cy)} {fl(cz)}',
                        f'{stream} on {name}: returned {v}, which is not canonical (0<=|z|<=y<=x<=pi/4, z>=0 when x is within atol of pi/4) or differs by more than 1e-7 from the '
                        f'coefficients {list(kxyz)} of the validated kak_decomposition of the same unitary and from their mirror image (pi/2-x, y, -z)',
-                       dict(rep, signature=f'{routine}:value:{cls(name)}')))
+                       dict(rep, signature=f'{routine}:value:' + (NEAR_FACE_CLASS if in_rtol_window(kxyz, atol) else cls(name)))))
     elif routine == 'extract_right_diag':
         if abs(z) <= 1e-6:
             return
@@ -935,6 +956,17 @@ def run_class(ctx, cirq, mods, conv, checks, routine, opts, name, u, hint, batch
                        cmp=('isometry_phase_f', 'the first two columns (first qubit in |0>) of the unitary of the returned operations differ from those of the input'))
     else:
         raise KeyError(routine)
+
+
+NEAR_FACE_CLASS = 'between-atol-and-1e-5-below-face-x=pi/4:z!=0'
+TAB_FACE_CLASS = 'less-than-1e-5-below-face-x=pi/4:z!=0'
+
+
+def in_rtol_window(xyz, atol=1e-8):
+    """Canonical coefficients below the face x = pi/4 by more than atol and less than 1e-5 (numpy's default relative tolerance at pi/4 is
+    7.9e-6), away from z = 0: a class of inputs (a property of the input's coefficients), used to group failures under one signature."""
+    x, y, z = xyz
+    return atol < PI4 - x < 1e-5 and abs(z) > 1e-6
 
 
 def class_stream(ctx, cirq, mods, conv, inputs, checks, sub):
@@ -1085,6 +1117,265 @@ def run_known(ctx, cirq, mods, conv, checks, spec, matrix_route=False):
 def known_syc_stream(ctx, cirq, mods, conv, checks, scale=1):
     for spec in known_specs(ctx, scale):
         run_known(ctx, cirq, mods, conv, checks, spec, matrix_route=spec.get('order') == [0, 1] and not spec.get('tagged') and not spec.get('s'))
+
+
+# =====================================================================================================
+# Stream 3d: the heuristic tabulation decomposition — two_qubit_gate_product_tabulation / TwoQubitGateTabulation.compile_two_qubit_gate
+# =====================================================================================================
+ROUTINES.update({
+    'two_qubit_gate_product_tabulation': 'docstring: a TwoQubitGateTabulation "used to compile new two-qubit gates from products of the base gate with 1-local unitaries"; '
+                                         'single_qubit_gates[j] is the "sequence of 1-local operations required to achieve" kak_vecs[j] (0, 1 or 2 inner layers = 1, 2 or 3 base gates); '
+                                         'ValueError only when allow_missed_points=False and a mesh point cannot be reached. Judged through compile_two_qubit_gate on the '
+                                         'target exp(i(x XX + y YY + z ZZ)) of EVERY tabulated vector (bare and dressed with Haar locals): success must be True there.',
+    'compile_two_qubit_gate': 'docstring (TwoQubitGateTabulationResult): U_target ~ k_N . U_base . k_{N-1} ... k_1 . U_base . k_0 with local_unitaries = (k_0, ..., k_N), '
+                              'k_j = k_j0 (x) k_j1 (2x2 unitaries), actual_gate "the right hand side above" (the relation is "~": compared up to global phase; no tolerance stated: '
+                              '1e-8 x 10 = 1e-7), success "whether actual_gate is expected to be close to U_target" (infidelity of the nearest tabulated point < max_expected_infidelity, '
+                              '"defined using entanglement fidelity"): when success is True the product of the returned factors, recomposed in the reference semantics, must have '
+                              '1 - |tr(U^dagger V)|^2/16 < max_expected_infidelity to the target; between one and three base gates.',
+    'SycamoreTargetGateset(tabulation)': 'docstring: "If set, a tabulation for the Sycamore gate is used for decomposing Matrix gates" (cirq_google two_qubit_to_sycamore.'
+                                         '_decompose_arbitrary_into_syc_tabulation through decompose_to_target_gateset): the operations must have the unitary actual_gate of '
+                                         'compile_two_qubit_gate up to phase (1e-7), one SYC per base gate, and stay within the infidelity bound of the matrix when success is True.',
+})
+# frozen tabulations: (name, base gate, max_infidelity, numpy RandomState seed, sample_scaling) — the same for every VERIF_SEED
+TABS = [('SYC:0.05:rs7', ('FSim', math.pi / 2, math.pi / 6), 0.05, 7, 50), ('FSim(pi/4,pi/24):0.1:rs7', ('FSim', math.pi / 4, math.pi / 24), 0.1, 7, 50),
+        ('SQRT_ISWAP:0.1:rs11', ('ISwapPow', 0.5), 0.1, 11, 50), ('CZ:0.1:rs7', ('CZ',), 0.1, 7, 50)]
+
+
+def tab_base(cirq, spec):
+    if spec[0] == 'FSim':
+        return np.asarray(cirq.unitary(cirq.FSimGate(spec[1], spec[2])), dtype=complex)
+    if spec[0] == 'ISwapPow':
+        return np.asarray(cirq.unitary(cirq.ISWAP ** spec[1]), dtype=complex)
+    if spec[0] == 'CZ':
+        return np.asarray(cirq.unitary(cirq.CZ), dtype=complex)
+    if spec[0] == 'matrix':
+        return from_cmat(spec[1])
+    raise KeyError(spec[0])
+
+
+def build_tab(ctx, cirq, tspec):
+    """tspec: dict(name, base, max_infidelity, random_state, sample_scaling) -> TwoQubitGateTabulation or None (violation recorded)."""
+    try:
+        return cirq.two_qubit_gate_product_tabulation(tab_base(cirq, tspec['base']), tspec['max_infidelity'], sample_scaling=tspec['sample_scaling'],
+                                                      random_state=np.random.RandomState(tspec['random_state']))
+    except Exception as e:
+        ctx.violation(f'two_qubit_gate_product_tabulation:raises:{tspec["name"]}', f'two_qubit_gate_product_tabulation({tspec}) raised {type(e).__name__}: {e}', dict(kind='tab-build', tab=tspec))
+        return None
+
+
+def tab_entry_kind(cycles):
+    """What a tabulated entry is made of: the number of inner local layers and, for two, whether they are the same layer twice."""
+    n = len(cycles)
+    if n == 0:
+        return 'base-gate-itself'
+    if n == 1:
+        return 'two-base-gates'
+    same = all(np.array_equal(np.asarray(cycles[0][i]), np.asarray(cycles[1][i])) for i in (0, 1))
+    return 'three-base-gates:equal-inner-layers' if same else 'three-base-gates:distinct-inner-layers'
+
+
+def fmat_pairs(pairs):
+    return '[' + '; '.join(f'({gates.fmat(a)}, {gates.fmat(b)})' for a, b in pairs) + ']'
+
+
+def run_tab(ctx, cirq, mods, conv, checks, tspec, tab, name, u, hint=None, syc=False, stats=None):
+    """compile_two_qubit_gate of one tabulation on one target + the Coq comparisons of its result."""
+    routine = 'compile_two_qubit_gate'
+    tname = tspec['name']
+    q = cirq.LineQubit.range(2)
+    u = np.asarray(u, dtype=complex)
+    opts = dict(tabulation=tname)
+    rep = dict(kind='tab', routine=routine, opts=opts, tab=tspec, input_class=name, target=cmat(u), hint=list(hint) if hint is not None else None, syc=int(syc))
+    scls = cls(name.split('#')[0])
+    try:
+        r = tab.compile_two_qubit_gate(u)
+        lus = [(np.asarray(a, dtype=complex), np.asarray(b, dtype=complex)) for a, b in r.local_unitaries]
+        actual = np.asarray(r.actual_gate, dtype=complex)
+        success = bool(r.success)
+        A = np.asarray(tab.base_gate, dtype=complex)
+        bound = float(tab.max_expected_infidelity)
+    except Exception as e:
+        ctx.violation(f'{routine}:raises:{tname}:{scls}', f'{routine}[{tname}] raised {type(e).__name__}: {e} on {name}', rep)
+        return
+    bad = [f'{w} has shape {m.shape}' for w, m in [('actual_gate', actual), ('base_gate', A)] if m.shape != (4, 4)]
+    bad += [f'local_unitaries[{j}] is not a pair of 2x2 matrices' for j, (a, b) in enumerate(lus) if a.shape != (2, 2) or b.shape != (2, 2)]
+    if not np.array_equal(np.asarray(r.base_gate_unitary), A):
+        bad.append('base_gate_unitary of the result is not the base gate of the tabulation')
+    if not np.array_equal(np.asarray(r.target_gate), u):
+        bad.append('target_gate of the result is not the unitary that was compiled')
+    if bad:
+        ctx.violation(f'{routine}:form:{tname}:{scls}', f'{routine}[{tname}] on {name}: ' + '; '.join(bad), rep)
+        return
+    nb = len(lus) - 1
+    distinct = nb == 3 and not all(np.array_equal(lus[1][i], lus[2][i]) for i in (0, 1))
+    if stats is not None:
+        stats['results_by_base_gates'][nb] = stats['results_by_base_gates'].get(nb, 0) + 1
+        stats['three_base_gates_with_distinct_inner_layers'] += int(distinct)
+        stats['success_false'] += int(not success)
+    # the documented product as a circuit: layer j on both qubits, the base gate between consecutive layers (k_0 first)
+    ops = []
+    for j, (a, b) in enumerate(lus):
+        ops += [cirq.MatrixGate(a).on(q[0]), cirq.MatrixGate(b).on(q[1])]
+        if j < nb:
+            ops.append(cirq.MatrixGate(A).on(q[0], q[1]))
+    layers = f'{len(lus)} local layers with {nb} base gate{"s" if nb != 1 else ""}' + (' (distinct inner layers)' if distinct else '')
+    extra = dict(kind='tab', tab=tspec, target=rep['target'], hint=rep['hint'], syc=int(syc), sig_prefix=tname + ':')
+    add_ops_checks(ctx, conv, checks, routine, opts, name.split('#')[0], actual, ops, q, 1e-7, True,
+                   (3, False, lambda op: len(op.qubits) == 2, 'between one and three base gates'), True, extra=extra,
+                   what_cmp=f'the product k_N.A.k_(N-1)...A.k_0 of the returned {layers} is not the reported actual_gate: it differs from it')
+    try:
+        term = conv.ops(ops, q)
+    except Exception:
+        return                                                   # reported by add_ops_checks
+    ks = fmat_pairs(lus)
+    checks.append((f'{routine}[tabulation={tname}]:form', f'tab_form_f {fl(1e-7)} {gates.fmat(A)} {ks} {gates.fmat(actual)} && tab_model_f {fl(1e-9)} {gates.fmat(A)} {ks} {term}',
+                   f'{routine}[{tname}] on {name}: a returned local factor, the base gate or actual_gate is not unitary, there are not 2..4 local layers, or the model product '
+                   f'(Xform/KakTab.v tab_product) of the layers disagrees with the reference semantics of the same circuit', dict(rep, signature=f'{routine}:form:{tname}:{scls}')))
+    ctx.count(f'{routine}[tabulation={tname}]:form', [name, rep['target']], True)
+    kx = hint
+    if kx is None:
+        try:
+            kx = [float(c) for c in cirq.kak_decomposition(u).interaction_coefficients]
+        except Exception:
+            kx = None
+    near = kx is not None and in_rtol_window(mirror_canonical(kx), 0.0)
+    bsig = f'{routine}:bound:' + (TAB_FACE_CLASS if near else f'{tname}:{scls}')
+    if success:
+        try:
+            inf = 1 - abs(np.trace(numpy_unitary(cirq, ops, q).conj().T @ u)) ** 2 / 16
+        except Exception:
+            inf = None
+        checks.append((f'{routine}[tabulation={tname}]:bound', f'within_infidelity_f {fl(bound)} {fl(1e-9)} {term} {gates.fmat(u)}',
+                       f'{routine}[{tname}] on {name}: success=True, but the product of the returned {layers} has entanglement infidelity {inf} to the target '
+                       f'(numpy estimate), not below max_expected_infidelity = {bound}', dict(rep, signature=bsig)))
+        ctx.count(f'{routine}[tabulation={tname}]:bound', [name, rep['target']], True, sample=dict(input_class=name, base_gates=nb, distinct_inner_layers=distinct, infidelity=inf, bound=bound))
+    elif name.startswith('table:'):
+        ctx.violation(f'two_qubit_gate_product_tabulation:success-false-at-tabulated-point:{tname}:{scls}',
+                      f'{routine}[{tname}] on {name}: success=False for the gate of a tabulated KAK vector (infidelity 0 to that entry)', rep)
+    if syc:
+        cg = mods['cirq_google']
+        routine2 = 'SycamoreTargetGateset(tabulation)'
+        qs = q if syc == 1 else q[::-1]
+        try:
+            tree = cg.SycamoreTargetGateset(tabulation=tab).decompose_to_target_gateset(cirq.MatrixGate(u).on(*qs), 0)
+            sops = list(cirq.flatten_to_ops(tree))
+        except Exception as e:
+            ctx.violation(f'{routine2}:raises:{tname}:{scls}', f'{routine2}[{tname}] raised {type(e).__name__}: {e} on {name}', rep)
+            return
+        if len(sops) == 1 and sops[0] == cirq.MatrixGate(u).on(*qs):
+            # TwoQubitCompilationTargetGateset keeps the operation when the decomposition has as many two-qubit gates (one): nothing was synthesised
+            ctx.count(routine2 + ':kept-the-operation', [name, rep['target'], syc], True)
+            return
+        ex2 = dict(extra, sig_prefix=tname + (':reversed:' if syc != 1 else ':'))
+        add_ops_checks(ctx, conv, checks, routine2, dict(opts, qubits='reversed' if syc != 1 else 'sorted'), name.split('#')[0], actual, sops, qs, 1e-7, True,
+                       (nb, True, lambda op: isinstance(op.gate, cg.SycamoreGate), f'one SYC per base gate of the compilation ({nb}) and no other two-qubit gate'), True, extra=ex2,
+                       what_cmp='the operations built from the compilation do not have the unitary of its actual_gate: they differ from it')
+        if success:
+            try:
+                checks.append((f'{routine2}[tabulation={tname}]:bound', f'within_infidelity_f {fl(bound)} {fl(1e-9)} {conv.ops(sops, qs)} {gates.fmat(u)}',
+                               f'{routine2}[{tname}] on {name}: success=True, but the returned operations ({nb} SYC) are not within max_expected_infidelity = {bound} of the matrix',
+                               dict(rep, signature=f'{routine2}:bound:' + (TAB_FACE_CLASS if near else f'{tname}:{scls}'))))
+                ctx.count(f'{routine2}[tabulation={tname}]:bound', [name, rep['target'], syc], True)
+            except Exception:
+                pass
+
+
+def mirror_canonical(xyz):
+    """(x, y, z) with x > pi/4 written as its mirror image (pi/2 - x, y, -z): the same class, below the face."""
+    x, y, z = xyz
+    return (2 * PI4 - x, y, -z) if x > PI4 else (x, y, z)
+
+
+PERTURBED = __import__('re').compile(r':[xyz][+-]\de-\d+$')
+
+
+def tab_targets(tab, k_tab, n_tabs, inputs, quick):
+    """[(name, unitary, hint)]: the gate of tabulated KAK vectors (every entry with two distinct inner layers bare and dressed with Haar locals,
+    the others on a fixed grid in the quick tier), then the corpus: named gates and bare Weyl-chamber points on every tabulation, dressed points,
+    structured inputs, perturbations and random inputs rotating over the tabulations (the points next to the face x = pi/4 twice as often)."""
+    out = []
+    for j, v in enumerate(np.asarray(tab.kak_vecs)):
+        kind = tab_entry_kind(tab.single_qubit_gates[j])
+        xyz = tuple(float(c) for c in v)
+        core = interaction_matrix(*xyz)
+        if not quick or 'distinct' in kind or j % 3 == 0 or j < 6:
+            out.append((f'table:{kind}#{j}', core, xyz))
+        if 'distinct' in kind or j % (6 if quick else 1) == 0:
+            r = name_rng(f'tab:{k_tab}:{j}')
+            g = cmath.exp(1j * r.uniform(0, 2 * math.pi))
+            out.append((f'table+locals:{kind}#{j}', g * local_pair(r, 'haar') @ core @ local_pair(r, 'haar'), xyz))
+    face = [f':x{sg}{d:.0e}' for d in NEAR_FACE + [1e-9] for sg in '+-']
+    for k, (name, u, hint) in enumerate(inputs):
+        turn = (k + k_tab) % n_tabs == 0
+        if not quick:
+            pick = turn or not PERTURBED.search(name)
+        elif PERTURBED.search(name):
+            pick = (k + k_tab) % (4 * n_tabs) == 0 or (any(name.endswith(f) for f in face) and hint is not None and abs(hint[2]) > 1e-6 and (k + k_tab) % 2 == 0)
+        elif name.startswith(('random', 'weyl+locals')) or is_structured(name):
+            pick = turn
+        else:
+            pick = True
+        if pick:
+            out.append((name, u, hint))
+    return out
+
+
+def tabulation_stream(ctx, cirq, mods, conv, inputs, checks, scale):
+    quick = ctx.tier == 'quick'
+    rng = ctx.rng
+    cov = ctx.cov.setdefault('tabulations', {})
+    specs = [dict(name=n, base=list(b), max_infidelity=inf, random_state=rs, sample_scaling=sc) for n, b, inf, rs, sc in TABS]
+    if not quick:
+        specs.append(dict(name='SYC:0.02:rs11', base=['FSim', math.pi / 2, math.pi / 6], max_infidelity=0.02, random_state=11, sample_scaling=50))
+    for i in range(scale):
+        if rng.random() < 0.5:
+            base, bn = ['FSim', round(rng.uniform(0.2, 1.5), 6), round(rng.uniform(-3, 3), 6)], 'fsim'
+        else:
+            base, bn = ['matrix', cmat(gates.random_unitary(rng, 4))], 'haar4'
+        specs.append(dict(name=f'random:{bn}', base=base, max_infidelity=rng.choice([0.1, 0.08, 0.15]), random_state=rng.randrange(2 ** 31), sample_scaling=rng.choice([20, 50])))
+    frozen = len(TABS)
+    for k_tab, tspec in enumerate(specs):
+        tab = build_tab(ctx, cirq, tspec)
+        if tab is None:
+            continue
+        tname = tspec['name']
+        kinds = {}
+        try:
+            n_entries = len(tab.kak_vecs)
+            if len(tab.single_qubit_gates) != n_entries or np.asarray(tab.kak_vecs).shape != (n_entries, 3) or any(len(c) > 2 for c in tab.single_qubit_gates):
+                raise ValueError(f'{n_entries} KAK vectors of shape {np.asarray(tab.kak_vecs).shape}, {len(tab.single_qubit_gates)} local sequences, longest {max(len(c) for c in tab.single_qubit_gates)}')
+            for c in tab.single_qubit_gates:
+                kinds[tab_entry_kind(c)] = kinds.get(tab_entry_kind(c), 0) + 1
+        except Exception as e:
+            ctx.violation(f'two_qubit_gate_product_tabulation:form:{tname}', f'two_qubit_gate_product_tabulation({tspec}): malformed tabulation: {e}', dict(kind='tab-build', tab=tspec))
+            continue
+        stats = dict(entries=n_entries, entries_by_kind=kinds, missed_points=len(tab.missed_points), results_by_base_gates={}, three_base_gates_with_distinct_inner_layers=0, success_false=0)
+        ctx.count('two_qubit_gate_product_tabulation', [tname if k_tab < frozen else tspec], True, sample=dict(tabulation=tname, entries=n_entries, entries_by_kind=kinds, summary=str(tab.summary)))
+        targets = tab_targets(tab, k_tab, max(frozen, 1), inputs, quick)
+        if k_tab >= frozen:       # a seeded tabulation: its own table, the named gates and the seeded random inputs
+            targets = [t for t in targets if t[0].startswith(('table', 'random')) or not t[0].startswith(('weyl', 'struct'))]
+        is_syc = tspec['base'][0] == 'FSim' and abs(tspec['base'][1] - math.pi / 2) < 1e-12 and abs(tspec['base'][2] - math.pi / 6) < 1e-12
+        for k, (name, u, hint) in enumerate(targets):
+            syc = 0
+            if is_syc and ('distinct' in name or k % 5 == 0):
+                syc = 1 if k % 2 == 0 else 2
+            run_tab(ctx, cirq, mods, conv, checks, tspec, tab, name, u, hint, syc=syc, stats=stats)
+            if k % 50 == 0:
+                tick()
+        cov[tname if k_tab < frozen else f'{tname}#{k_tab - frozen}'] = stats
+    # allow_missed_points=False: ValueError is the documented outcome when a mesh point is missed; otherwise nothing may be missed
+    for b, inf, rs in ((('CZ',), 0.1, 11), (('FSim', math.pi / 2, math.pi / 6), 0.1, 7)):
+        tspec = dict(name=f'{b[0]}:{inf}:rs{rs}:allow_missed_points=False', base=list(b), max_infidelity=inf, random_state=rs, sample_scaling=50)
+        try:
+            tab = cirq.two_qubit_gate_product_tabulation(tab_base(cirq, b), inf, random_state=np.random.RandomState(rs), allow_missed_points=False)
+            ctx.count('two_qubit_gate_product_tabulation[allow_missed_points=False]', [tspec['name']], True, sample=dict(tabulation=tspec['name'], missed=len(tab.missed_points)))
+            if len(tab.missed_points):
+                ctx.violation(f'two_qubit_gate_product_tabulation:missed-points-without-error:{tspec["name"]}',
+                              f'two_qubit_gate_product_tabulation(..., allow_missed_points=False) returned a tabulation with {len(tab.missed_points)} missed points', dict(kind='tab-build', tab=tspec))
+        except ValueError:
+            ctx.count('two_qubit_gate_product_tabulation[allow_missed_points=False]:ValueError', [tspec['name']], True)
+        except Exception as e:
+            ctx.violation(f'two_qubit_gate_product_tabulation:raises:{tspec["name"]}', f'raised {type(e).__name__}: {e}', dict(kind='tab-build', tab=tspec))
 
 
 # =====================================================================================================
@@ -1763,6 +2054,7 @@ def run(ctx):
     cirq = mods['cirq']
     ctx.rule = ('each routine of the frozen list (coverage.routines) x [special-case corpus: identity, local gates, CNOT/CZ/iSWAP/sqrt-iSWAP/SWAP classes, structured unitaries '
                 '(diagonal, tensor products, (phased) permutations, controlled, block-diagonal; every routine on each), the known-gate grid of the Sycamore dispatch, non-sorted qubit orders, '
+                'frozen + seeded gate tabulations x (the gate of every tabulated KAK vector + the corpus), points 1e-7..5e-6 below the face x=pi/4, '
                 '29 named Weyl-chamber points (vertices, edges, faces, interior, B, sqrt-iSWAP region boundary) bare and dressed with Haar local gates and a phase, '
                 '+-{1e-10,1e-9,2e-9,1e-8} on every coordinate sitting on a boundary, degenerate spectra] + seeded random unitaries (Haar via QR, products of library gates) '
                 'x option flags; non-trivial = input is not the identity; distinct by (routine, options, input matrix)')
@@ -1796,6 +2088,9 @@ def run(ctx):
     tick()
     known_syc_stream(ctx, cirq, mods, conv, checks, n)
     lap('known_syc')
+    tick()
+    tabulation_stream(ctx, cirq, mods, conv, inputs, checks, 1 if ctx.tier == 'quick' else 4)
+    lap('tabulation')
     tick()
     inputs1 = one_qubit_inputs(ctx, cirq, 30 * n)
     one_qubit_stream(ctx, cirq, mods, conv, inputs1, checks)
@@ -1852,6 +2147,13 @@ def replay(ctx, data):
         run_cphase(ctx, cirq, mods, conv, checks, data['input_class'], data['theta'], data['phi'], data['exponent'], data['feasible'])
     elif kind == 'known':
         run_known(ctx, cirq, mods, conv, checks, data['spec'])
+    elif kind == 'tab':
+        tab = build_tab(ctx, cirq, data['tab'])
+        if tab is None:
+            return False
+        run_tab(ctx, cirq, mods, conv, checks, data['tab'], tab, data['input_class'], from_cmat(data['target']), data.get('hint'), syc=data.get('syc', 0))
+    elif kind == 'tab-build':
+        return build_tab(ctx, cirq, data['tab']) is not None
     elif kind == 'class' and data['routine'] in ROUTINES_CLASS:
         opts = dict(data['opts'])
         if opts.pop('form', None) == 'array':
